@@ -706,6 +706,33 @@ let codecrt_suite () =
     done
   with End_of_file -> ())
 
+(* ---------------------------------------------------------------- suite: absglue *)
+let absglue_suite () =
+  let idx = ref 0 in
+  let pending = ref None in
+  (try
+    while true do
+      let line = input_line stdin in
+      let n = String.length line in
+      if n > 2 && line.[0] = 'C' then begin
+        match split_sp line with
+        | [_; "P"; _; realms; hexs] | [_; "P"; _; realms; _; _; _; hexs] ->
+          let rs = if realms = "-" then [] else List.map nn (String.split_on_char ',' realms) in
+          pending := Some (rs, bytes_of_hex hexs)
+        | _ -> failwith "bad glue record"
+      end else if n >= 2 && line.[0] = 'I' then begin
+        match !pending with
+        | None -> failwith "I without C"
+        | Some (rs, b) ->
+          let i = !idx in incr idx;
+          (match abs_packet rs b with
+           | None -> emit (Printf.sprintf "M %d MALFORMED" i)
+           | Some ((cls, meth), attrs) -> emit (Printf.sprintf "M %d %d %d %s" i (int_of_n cls) (int_of_n meth) (tok_attrs attrs)));
+          pending := None
+      end
+    done
+  with End_of_file -> ())
+
 let () =
   (match Sys.argv with
    | [| _; "filter" |] -> filter_suite ()
@@ -716,5 +743,6 @@ let () =
    | [| _; "valueapi" |] -> valueapi_suite ()
    | [| _; "codecrt" |] -> codecrt_suite ()
    | [| _; "attrval" |] -> attrval_suite ()
+   | [| _; "absglue" |] -> absglue_suite ()
    | _ -> prerr_endline "usage: driver <suite> < cases"; exit 2);
   flush_out ()
